@@ -164,6 +164,14 @@ let handle toks =
       (match from_body c (bytes_of_hex d) with
        | Accept a -> "A " ^ show_assign a | Partial a -> "P " ^ show_assign a | Reject -> "R")
   | ["schemaok"; idx] -> let c = nth_cmd (int_of_string idx) in if schema_ok c.c_params then "1" else "0"
+  | ["reasm"; b] ->
+      (* wire bytes -> spec parse -> data frames -> reassembly: the messages handed to dispatch *)
+      let frames = List.filter (fun w -> not w.w_ack) (List.map snd (spec_parse_pos (bytes_of_hex b))) in
+      let (pending, msgs) = reasm_run [] frames in
+      String.concat ";" (List.map (function
+        | RMsg (h, d) -> "M:" ^ si h ^ ":" ^ hex_of_bytes d
+        | RNoHeader d -> "N:" ^ hex_of_bytes d
+        | RShort -> "S") msgs) ^ " // pending=" ^ string_of_int (List.length pending)
   | ["specparse"; b] ->
       String.concat ";" (List.map (fun (o, w) -> string_of_int (int_of_nat o) ^ ":" ^ show_w w) (spec_parse_pos (bytes_of_hex b)))
   | ["specack"; q] -> hex_of_bytes (spec_ack_bytes (ni q))
